@@ -7,6 +7,7 @@ run on a virtual-time event loop against scripted child processes; the schedule
 from __future__ import annotations
 
 import copy
+import json
 import random
 import typing as T
 
@@ -100,7 +101,18 @@ class Check:
         runs = []
         for r in range(nruns):
             runs.append(self.gen_run(rng, tests, sw, tick, setups))
-        return {'kind': 'c12', 'tests': tests, 'runs': runs, 'setups': setups}
+        sc = {'kind': 'c12', 'tests': tests, 'runs': runs, 'setups': setups}
+        # (extra stream, added late) a top-level project whose *name* is not what its tests' suites are prefixed with: meson
+        # replaces ' ' and ':' in the prefix by '_'. --suite / --no-suite / exclude_suites and the printed names speak of the
+        # prefix ('p_12'); positional test names, --exclude and --setup of the project name ('p 12').
+        rx = prng.derive(prng.base_seed(), 'c12-extra', tier, index)
+        if rx.random() < 0.15:
+            top_id, top_raw = 'p_12', 'p 12'
+            sc = json.loads(json.dumps(sc).replace(json.dumps(C.TOP), json.dumps(top_id)).replace(f'"{C.TOP}:', f'"{top_id}:'))
+            sc['top_raw'] = top_raw
+            for r_ in sc['runs']:
+                r_['top_id'], r_['top_raw'] = top_id, top_raw
+        return sc
 
     def gen_run(self, rng: random.Random, tests: T.List[T.Dict[str, T.Any]], sw: T.Dict[str, float], tick: float,
                 setups: T.Sequence[T.Dict[str, T.Any]] = ()) -> T.Dict[str, T.Any]:
@@ -304,11 +316,13 @@ class Check:
     def _run(self, sc: T.Dict[str, T.Any], root: str) -> T.Dict[str, T.Any]:
         tests = sc['tests']
         byid = {t['id']: t for t in tests}
-        sd, bd = C.write_project(root, tests, sc.get('setups') or [])
+        sd, bd = C.write_project(root, tests, sc.get('setups') or [], top_raw=sc.get('top_raw'))
         r = C.setup(root, sd, bd)
         if not r['ok'] or r['value'] != 0:
             return R.harness_error('setup of generated project failed: ' + (r.get('exc') or r['out'])[-2000:])
         agg = {'faults': {}, 'probes': {}, 'sim_time': 0.0, 'steps': 0, 'interleavings': [], 'nontrivial': False}
+        if sc.get('top_raw'):
+            agg['probes']['project-name-needs-sanitising'] = 1
         keyparts: T.List[str] = []
         summaries = []
         for ri, run in enumerate(sc['runs']):
@@ -338,7 +352,7 @@ class Check:
         pretty = {MR.pretty_name(t): t['id'] for t in tests}
         listed = [l for l in lr['out'].splitlines() if l.strip()]
         listed_ids: T.List[str] = []
-        model_sel = MR.select(tests, run, C.TOP)
+        model_sel = MR.select(tests, run, run.get('top_id', C.TOP))
         if not (len(listed) == 1 and listed[0].startswith('No ')):
             for l in listed:
                 if l not in pretty:
@@ -375,7 +389,7 @@ class Check:
             return None
         # ---- the simulated run
         argv = C.run_args(bd, run)
-        logbase = 'testlog' + (f"-{C.TOP}_{run['setup']}" if run.get('setup') else '')   # meson names the log files after the setup
+        logbase = 'testlog' + (f"-{run.get('top_id', C.TOP)}_{run['setup']}" if run.get('setup') else '')   # meson names the log files after the setup
         rr = C.sim_run(root, bd, argv, run['sim'], run['scripts'], f'{ri}', logbase=logbase, extra_env=C.jobs_env(run))
         if not rr['ok']:
             if rr['exc_in_sut']:
